@@ -11,7 +11,7 @@ PLAN = {
                             'NOT counted as proved. Discharged deductively: the circular-distance tolerance predicate, and - in the evidence of C01/C04/C06/C07/C08 - every '
                             'caller against the matcher contract "valid maximum matching of the stated predicate".'),
     'C06': dict(level='proof', engines=['forward', 'segnative', 'tasknative', 'matchnative']),
-    'C07': dict(level='proof', engines=['tasknative', 'matchnative']),
+    'C07': dict(level='proof', engines=['tasknative', 'matchnative', 'beatstruct']),
     'C08': dict(level='proof', engines=['segnative', 'tasknative', 'multipitchnative']),
     'C09': dict(level='proof', engines=['chordnative', 'keynative', 'tasknative']),
     'C10': dict(level='proof', engines=['chordre']),
